@@ -157,3 +157,68 @@ Example eventually_processed_nonvacuous :
   map t_res (ths c) = [RExecuted; RQueued 5; RQueued 6].
 Proof. vm_compute. repeat split; reflexivity. Qed.
 Print Assumptions eventually_processed_nonvacuous.
+
+(* ------------------------------------------------------------------ *)
+(* Prepended, tick-less mutations (CanAdd / CanRemove / Eval /         *)
+(* PrependMut share processQueue): the generalised interleaving model  *)
+(* Conc/QueueLockP.v - a goroutine is an Add1 caller or a check caller *)
+(* whose mutation is PREPENDED without a queue tick; the re-check      *)
+(* after the release is a parameter (RmNone / RmLen = the code /       *)
+(* RmPending = looks at queueTicksPending only). The names below are   *)
+(* those of QueueLockP (same names as QueueLock, shadowed inside the   *)
+(* module). Any number of goroutines, any mix, any schedule.           *)
+(* ------------------------------------------------------------------ *)
+From AMV Require Conc.QueueLockP Proofs.C04PProofs.
+Module P.
+Import AMV.Conc.QueueLockP.
+
+
+(* (1) one transition at a time: at most one thread is inside the drain
+   (PLoop / PPop / PRelease) and queueProcessing is true exactly when one is;
+   whatever the re-check mode *)
+Theorem drain_mutex_p :
+  forall (mode : rmode) (muts : list (nat * list nat * bool)) (sched : list nat),
+    mutex_ok (exec_sched mode (init_cfg muts) sched) = true.
+Proof. exact C04PProofs.drain_mutex_p_lemma. Qed.
+Print Assumptions drain_mutex_p.
+
+(* (2) with the queue-length re-check after the release (the code), an idle
+   machine never sits on a non-empty queue, also when check threads prepend
+   tick-less entries *)
+Theorem no_strand_p :
+  forall (muts : list (nat * list nat * bool)) (sched : list nat),
+    no_strand_ok (exec_sched RmLen (init_cfg muts) sched) = true /\
+    (all_done (exec_sched RmLen (init_cfg muts) sched) = true ->
+     queue (sh (exec_sched RmLen (init_cfg muts) sched)) = []).
+Proof. exact C04PProofs.no_strand_p_lemma. Qed.
+Print Assumptions no_strand_p.
+
+(* (3) a re-check that looks at queueTicksPending instead of the queue length
+   strands a tick-less (check) entry: everybody returned, the queue is not
+   empty although nothing is pending and nobody processes *)
+Theorem no_strand_pending_refuted :
+  exists (muts : list (nat * list nat * bool)) (sched : list nat),
+    let c := exec_sched RmPending (init_cfg muts) sched in
+    all_done c = true /\ queue (sh c) <> [] /\ pending (sh c) = 0 /\
+    processing (sh c) = false /\ no_strand_ok c = false.
+Proof. exact C04PProofs.no_strand_pending_refuted_lemma. Qed.
+Print Assumptions no_strand_pending_refuted.
+
+(* (3') the same schedule under the queue-length re-check: thread 0 re-enters
+   and, scheduled to completion, drains the check entry *)
+Theorem no_strand_pending_same_schedule_ok :
+  let muts := [(0, [], false); (1, [], true)] in
+  let sched := [0;0;0;0;0;0; 1;1;1; 0;0] in
+  let cb := exec_sched RmPending (init_cfg muts) sched in
+  let c1 := exec_sched RmLen (init_cfg muts) sched in
+  let c2 := exec_sched RmLen (init_cfg muts) (sched ++ [0;0;0;0;0;0;0]) in
+  (all_done cb = true /\ queue (sh cb) = [(1, 0)] /\
+   map t_res (ths cb) = [RExecuted; RQueued 0] /\ no_strand_ok cb = false) /\
+  (all_done c1 = false /\ queue (sh c1) = [(1, 0)] /\
+   map t_pc (ths c1) = [PEntry; PDone] /\ no_strand_ok c1 = true) /\
+  (all_done c2 = true /\ queue (sh c2) = [] /\
+   map fst (rev (executed (sh c2))) = [0; 1] /\
+   map t_res (ths c2) = [RExecuted; RQueued 0] /\ no_strand_ok c2 = true).
+Proof. exact C04PProofs.no_strand_pending_same_schedule_ok_lemma. Qed.
+Print Assumptions no_strand_pending_same_schedule_ok.
+End P.
